@@ -147,17 +147,20 @@ def run_check(
     t0 = time.time()
     ctx = Ctx(property_id, tier)
     seed = int(os.environ.get("VERIF_SEED", "0") or 0)
+    analysis_error: Optional[str] = None
     try:
         rules(ctx)
     except AnalysisError as e:
-        print(f"ANALYSIS-ERROR property={property_id} {e}")
-        _write_evidence(ctx, level, seed, t0, explanation, checker_cmd, error=str(e))
-        return 2
+        analysis_error = str(e)
     except Exception as e:  # a traceback must not look like a violation
         traceback.print_exc()
-        print(f"ANALYSIS-ERROR property={property_id} internal error: {type(e).__name__}: {e}")
-        _write_evidence(ctx, level, seed, t0, explanation, checker_cmd, error=repr(e))
-        return 2
+        analysis_error = f"internal error: {type(e).__name__}: {e}"
+    if analysis_error is not None:
+        print(f"ANALYSIS-ERROR property={property_id} {analysis_error}")
+        if not ctx.findings:
+            _write_evidence(ctx, level, seed, t0, explanation, checker_cmd, error=analysis_error)
+            return 2
+        # rules that ran before the analysis stopped did find violations: report those (exit 1 below)
 
     known = load_known_findings()
     new: List[Finding] = []
@@ -212,8 +215,11 @@ def run_check(
         for grp, cnt in shown.items():
             if cnt > 3:
                 print(f"  ... and {cnt - 3} more violation(s) of {grp[0]} in {grp[1]} (all listed in the evidence file)")
+    if analysis_error is not None and not new:
+        _write_evidence(ctx, level, seed, t0, explanation, checker_cmd, n_known=len(seen_known), error=analysis_error)
+        return 2
     _write_evidence(
-        ctx, level, seed, t0, explanation, checker_cmd, n_viol=len(new), n_known=len(seen_known)
+        ctx, level, seed, t0, explanation, checker_cmd, n_viol=len(new), n_known=len(seen_known), error=analysis_error
     )
     holds = sum(1 for i in ctx.instances if i["verdict"] == "holds")
     print(
